@@ -12,11 +12,13 @@
 package main
 
 import (
+	"bytes"
 	"context"
 	"encoding/json"
 	"fmt"
 	"math"
 	"math/big"
+	"net/http/httptest"
 	"path/filepath"
 	"reflect"
 	"sort"
@@ -426,6 +428,12 @@ type Obs struct {
 	Dump   *Val   `json:"dump,omitempty"`
 	CallsF int32  `json:"calls_f"`
 	CallsG int32  `json:"calls_g"`
+	// the same request through graphql.HTTPHandler (the repository's own Parse / PrepareQuery / Execute sequence)
+	HTTPErr    string `json:"http_err,omitempty"`
+	HTTPDump   *Val   `json:"http_dump,omitempty"`
+	HTTPCallsF int32  `json:"http_calls_f"`
+	HTTPCallsG int32  `json:"http_calls_g"`
+	HTTPStatus string `json:"http_status,omitempty"` // ok | error | panic | timeout
 }
 
 type built struct {
@@ -521,6 +529,53 @@ func (b *built) exec(s *Send) (o Obs) {
 		o = Obs{Stage: "timeout"}
 	}
 	return o
+}
+
+// viaHTTP posts the request to graphql.HTTPHandler.
+func (b *built) viaHTTP(s *Send, o *Obs) {
+	*b.callsF, *b.callsG = 0, 0
+	*b.got = reflect.Value{}
+	type res struct {
+		status, err string
+		dump        *Val
+	}
+	done := make(chan res, 1)
+	go func() {
+		var r res
+		defer func() {
+			if e := recover(); e != nil {
+				r = res{status: "panic", err: fmt.Sprint(e)}
+			}
+			done <- r
+		}()
+		body, _ := json.Marshal(map[string]interface{}{"query": s.query(), "variables": s.Vars})
+		req := httptest.NewRequest("POST", "/graphql", bytes.NewReader(body))
+		rec := httptest.NewRecorder()
+		graphql.HTTPHandler(b.schema).ServeHTTP(rec, req)
+		var resp struct {
+			Data   interface{} `json:"data"`
+			Errors []string    `json:"errors"`
+		}
+		if err := json.Unmarshal(rec.Body.Bytes(), &resp); err != nil {
+			r = res{status: "error", err: "bad response: " + rec.Body.String()}
+			return
+		}
+		if len(resp.Errors) > 0 {
+			r = res{status: "error", err: strings.Join(resp.Errors, "; ")}
+			return
+		}
+		r = res{status: "ok"}
+		if b.got.IsValid() {
+			r.dump = dump(*b.got, b.mty)
+		}
+	}()
+	select {
+	case r := <-done:
+		o.HTTPStatus, o.HTTPErr, o.HTTPDump = r.status, r.err, r.dump
+	case <-time.After(10 * time.Second):
+		o.HTTPStatus = "timeout"
+	}
+	o.HTTPCallsF, o.HTTPCallsG = atomic.LoadInt32(b.callsF), atomic.LoadInt32(b.callsG)
 }
 
 func js(v interface{}) string {
@@ -658,6 +713,7 @@ func main() {
 		for k := range c.Sends {
 			s := &c.Sends[k]
 			ob := b.exec(s)
+			b.viaHTTP(s, &ob)
 			obs = append(obs, ob)
 			run.Hist("transport:" + s.Transport)
 			run.Hist("outcome:" + ob.Stage)
@@ -682,6 +738,17 @@ func main() {
 				if ob.CallsF != 1 || ob.CallsG != 1 {
 					run.Fail(idx, "resolver-call-count", fmt.Sprintf("calls f=%d g=%d %s", ob.CallsF, ob.CallsG, tag), c)
 				}
+			}
+			// the repository's HTTP handler must behave like the Parse / PrepareQuery / Execute sequence above
+			switch {
+			case ob.HTTPStatus == "panic" || ob.HTTPStatus == "timeout":
+				run.Fail(idx, "http-handler-"+ob.HTTPStatus, ob.HTTPErr+" "+tag, c)
+			case (ob.HTTPStatus == "ok") != (ob.Stage == "ok"):
+				run.Fail(idx, "http-path-disagrees", fmt.Sprintf("direct=%s http=%s %s %s", ob.Stage, ob.HTTPStatus, ob.HTTPErr, tag), c)
+			case ob.HTTPStatus == "error" && ob.HTTPCallsF+ob.HTTPCallsG != 0:
+				run.Fail(idx, "resolver-ran-before-rejection", fmt.Sprintf("http: calls f=%d g=%d %s", ob.HTTPCallsF, ob.HTTPCallsG, tag), c)
+			case ob.HTTPStatus == "ok" && !valEq(ob.HTTPDump, ob.Dump):
+				run.Fail(idx, "http-path-disagrees", "http="+js(ob.HTTPDump)+" direct="+js(ob.Dump)+" "+tag, c)
 			}
 			switch c.Expect {
 			case "echo":
